@@ -17,12 +17,13 @@ import (
 )
 
 type CaseC09 struct {
-	Map    map[string]interface{} `json:"map"`
-	Prefix string                 `json:"prefix"` // attribute prefix
-	Dot    bool                   `json:"dot,omitempty"`
-	NoAttr bool                   `json:"no_attr,omitempty"`
-	Exotic bool                   `json:"exotic,omitempty"` // keys may be "", dotted, bracketed, "*"
-	Alias  *AliasSpec             `json:"alias,omitempty"`  // one container object gets a second parent in the subject Map
+	Map          map[string]interface{} `json:"map"`
+	Prefix       string                 `json:"prefix"` // attribute prefix
+	Dot          bool                   `json:"dot,omitempty"`
+	DotViaToggle bool                   `json:"dot_via_toggle,omitempty"` // the dot-notation flag is brought to its value through LeafUseDotNotation() without an argument
+	NoAttr       bool                   `json:"no_attr,omitempty"`
+	Exotic       bool                   `json:"exotic,omitempty"` // keys may be "", dotted, bracketed, "*"
+	Alias        *AliasSpec             `json:"alias,omitempty"`  // one container object gets a second parent in the subject Map
 }
 
 func init() { register("C09", checkC09) }
@@ -88,6 +89,7 @@ func decorate(t *rapid.T, v interface{}, prefix string) {
 func genC09(t *rapid.T) CaseC09 {
 	c := CaseC09{Prefix: rapid.SampledFrom([]string{"-", "-", "@", "attr_", ""}).Draw(t, "prefix")}
 	c.Dot = rapid.IntRange(0, 3).Draw(t, "dot") == 0
+	c.DotViaToggle = rapid.IntRange(0, 2).Draw(t, "dottoggle") == 0
 	c.NoAttr = rapid.Bool().Draw(t, "noattr")
 	switch rapid.IntRange(0, 9).Draw(t, "src") {
 	case 0, 1, 2:
@@ -119,7 +121,9 @@ type refLeaf struct {
 
 // refLeaves: named tells whether a key has been added to path already (an empty path may be the path of the empty key:
 // what follows it is joined with a dot like after any other key).
-func refLeaves(v interface{}, path string, c CaseC09, out *[]refLeaf) { refLeavesAt(v, path, path != "", c, out) }
+func refLeaves(v interface{}, path string, c CaseC09, out *[]refLeaf) {
+	refLeavesAt(v, path, path != "", c, out)
+}
 
 func refLeavesAt(v interface{}, path string, named bool, c CaseC09, out *[]refLeaf) {
 	switch x := v.(type) {
@@ -199,7 +203,14 @@ func checkC09(c CaseC09, info *Info) *Failure {
 	}
 	defer resetOptions()
 	mxj.SetAttrPrefix(c.Prefix)
-	mxj.LeafUseDotNotation(c.Dot)
+	if c.DotViaToggle {
+		// the documented argument-less form: "toggles the flag" - from the opposite value
+		mxj.LeafUseDotNotation(!c.Dot)
+		mxj.LeafUseDotNotation()
+		info.Class("dot notation reached through the toggle form")
+	} else {
+		mxj.LeafUseDotNotation(c.Dot)
+	}
 	subject := copyMap(c.Map)
 	if c.Alias != nil {
 		// the subject holds one container object twice; the reference sees the same Map by value
